@@ -120,7 +120,7 @@ def batch_leg(ctx, q, with_process):
         j = p.stdout.index("WARNING: DATA RACE")
         ctx.candidate(dict(kind="race"), "data race reported by the Go race detector:\n" + p.stdout[j:j + 3000], dict(kind="race", report=p.stdout[j:j + 3000]))
     elif p.returncode != 0:
-        raise vf.Machinery("harness failed rc=%d\n%s" % (p.returncode, p.stdout[-3000:]))
+        ctx.harness_died(p, "TestVerifC11Run harness")
     res = vf.read_ndjson(outp)
     if len(res) != len(scns):
         raise vf.Machinery("harness returned %d results for %d scenarios" % (len(res), len(scns)))
